@@ -25,6 +25,7 @@ EXPLANATION = (
     "C16.3 spec tables: Bitstamp v2 message order, HMAC-SHA256 hex for both exchanges, security type of every endpoint. "
     "Byte equality is reduced to encoder identity; clock skew and non-default ports in the Host header are not claimed."
     " C16.1 compares, besides the encoder, what is done to the mapping before it is encoded, and follows helpers across modules."
+    " C16.2 also: a signed parameter map flows only to the transport, never to the signer again."
 )
 TRUSTED = ["CPython ast parser", "sa.cfg statement CFG", "aiohttp/yarl transport facts (FormData -> urlencode re-checked "
            "against the installed source)", "Binance / Bitstamp API documentation (spec tables)"]
